@@ -1178,3 +1178,37 @@ def monitor_c17(se, stats):
                 viol.append({"step": i, "kind": "isolation", "what": "`%s` is addressed to queue %s but unsettled deliveries of other queues changed: %s -> %s" % (st["op"], qn, pun, cun)})
         prev = cur
     return viol
+
+
+C11_ALLOC_CONST, C11_ALLOC_FACTOR = 512 * 1024, 256
+
+
+def monitor_c11(se, stats):
+    """No client input crashes, wedges or balloons the broker: after every hostile byte string the canary round trip
+    (publish + get on another connection) succeeds, the process allocated no more than a constant plus a small multiple
+    of what was sent, and the snapshot still answers. (A crash of the process is reported by the session runner.)"""
+    viol = []
+    last_raw = None
+    for i, st in enumerate(se["steps"]):
+        f = st["op"].split()
+        if st["snap"] == ["WEDGED"] or "WEDGED" in (st.get("note") or "") or "TIMEOUT" in (st.get("note") or ""):
+            viol.append({"step": i, "kind": "wedged", "what": "the broker stopped answering after `%s` (%s); last hostile input: %s" % (st["op"], st.get("note"), last_raw)})
+            break
+        if f[0] == "RAW":
+            last_raw = st["op"]
+            stats["hostile_inputs"] = stats.get("hostile_inputs", 0) + 1
+            stats.setdefault("hostile_kinds", {})
+            stats["hostile_kinds"][f[2]] = stats["hostile_kinds"].get(f[2], 0) + 1
+            alloc, sent = st.get("alloc", 0), st.get("sent", 0)
+            stats["max_alloc"] = max(stats.get("max_alloc", 0), alloc)
+            if alloc > C11_ALLOC_CONST + C11_ALLOC_FACTOR * sent:
+                viol.append({"step": i, "kind": "balloon", "what": "`%s` (%d bytes sent) made the broker allocate %d bytes (allowed %d)" % (
+                    st["op"], sent, alloc, C11_ALLOC_CONST + C11_ALLOC_FACTOR * sent)})
+            closed = any(x[2] in ("connection.close", "GONE") for x in frames_of(st))
+            if closed:
+                stats["offender_closed"] = stats.get("offender_closed", 0) + 1
+        elif f[0] == "GET" and f[3] == "canary":
+            stats["canary_round_trips"] = stats.get("canary_round_trips", 0) + 1
+            if not any(x[2] == "basic.get-ok" for x in frames_of(st)):
+                viol.append({"step": i, "kind": "canary", "what": "the canary connection did not get its message back after %s (frames %s)" % (last_raw, st["frames"])})
+    return viol
